@@ -1115,11 +1115,14 @@ class PrepareAst:
                 )
 
         if isinstance(inp, ast.BoolOp):
-            val_expr = [cast(out.Expression, self.apply(val)) for val in inp.values]
+            val_expr = []
+            bool_expr = []
+            bool_resuls = []
 
-            val_results = [val.result() for val in val_expr]
+            for val in inp.values:
+                operand = cast(out.Expression, self.apply(val))
+                val_result = operand.result()
 
-            for val_result in val_results:
                 # strings are not allowed in boolean contexts because the difference
                 # in the expected behavior in python (only the empty string evaluates to False)
                 # and CoHDL (BitVector literals containing only zeros evaluate to False) could lead to confusing results
@@ -1127,9 +1130,17 @@ class PrepareAst:
                     val_result, str
                 ), "str cannot be used in boolean contexts"
 
-            bool_expr = [self.convert_boolean(val_result) for val_result in val_results]
+                converted = self.convert_boolean(val_result)
 
-            bool_resuls = [expr.result() for expr in bool_expr]
+                val_expr.append(operand)
+                bool_expr.append(converted)
+                bool_resuls.append(converted.result())
+
+                if converted.result() is isinstance(inp.op, ast.Or):
+                    # like in python the remaining operands are not evaluated
+                    # once a constant operand decides the result
+                    # (False for `and`, True for `or`)
+                    break
 
             runtime_vars = []
             const_vars = []
